@@ -152,6 +152,12 @@ def execute(sc, ctx):
                 any_prior = True
                 verified_old = False
                 failed_old = False
+                not_judged = [f for f in requested if f in known and f not in fmts_here]
+                if not_judged:
+                    ctx.violate({"kind": "recorded-format-requested-but-not-judged"},
+                                f"gen {num} {rec['path']}: formats {not_judged} are recorded for the file and were requested, "
+                                f"but the new record only has {fmts_here}")
+                    return
                 for e in rec["entries"]:
                     if e["fmt"] in known:
                         want = "verified" if e["digest"] == known[e["fmt"]] else "failed"
